@@ -21,12 +21,15 @@ Batches (OG.C11.Batch) are answered against a second catalogue, built by:
   mapq <tmin> <tmax> <mst,mst…> <cond…>                         (OG.C11.ReadMap.mapMst)
   mapsub <tmin> <tmax> <mst,mst…> <imin|-> <imax|-> <inner cond…> <outer cond…>   (mapSub)
         → map <mst>=<sorted shard ids> …                                          | err panic
+  alive <online 0|1,…> <owner,owner…> <r|w> <hard-write 0|1>    (OG.C11.Alive.aliveWAF)
+        → alive <i,i…|->                                                          | err panic
 
 `hash` is instantiated with xxhash64 (seed 0), as `meta.HashID`.
 -/
 import OG.C11.Model
 import OG.C11.Batch
 import OG.C11.ReadMap
+import OG.C11.Alive
 
 namespace OG.C11
 
@@ -316,6 +319,14 @@ def stepC (C : Catalogue) (toks : List String) : Option (Catalogue × String) :=
     else match showMap (mapSub true hashID OG.Gen.C11.maxConditionTagGroups C msts lo hi il ih inner outer) with
       | some s => some (C, "map" ++ s)
       | none => some (C, "err panic")
+  | ["alive", online, owners, rw, hard] => do
+    let on ← parseList (fun t => if t == "1" then some true else if t == "0" then some false else none) "," online
+    let ow ← parseList String.toNat? "," owners
+    if (rw == "r" || rw == "w") && (hard == "0" || hard == "1") then
+      match aliveWAF on ow (rw == "r") (hard == "1") with
+      | some l => some (C, "alive " ++ (if l.isEmpty then "-" else ",".intercalate (l.map toString)))
+      | none => some (C, "err panic")
+    else none
   | "batch" :: rows => do
     let rs ← rows.mapM parseRow
     some (C, showBatch rs.length (routeBatch true true hashID C rs))
@@ -363,7 +374,7 @@ def step (M : Meta) (line : String) : Meta × String :=
 
 def isCatOp (line : String) : Bool :=
   line.startsWith "cat " || line.startsWith "cmst " || line.startsWith "cgroup " || line.startsWith "batch" ||
-    line.startsWith "mapq " || line.startsWith "mapsub "
+    line.startsWith "mapq " || line.startsWith "mapsub " || line.startsWith "alive "
 
 partial def loop (h : IO.FS.Stream) (out : IO.FS.Stream) (s : DState) : IO Unit := do
   let line ← h.getLine
